@@ -53,6 +53,7 @@ func TestGoFactsSelfTestDetects(t *testing.T) {
 		{"shadow removed", "fix/fix.go", "one := big.NewInt(3) // benign", "one = big.NewInt(3) // benign", "reported but not planted"},
 		{"arm64-only call unmarked", "fix/arch_arm64.go", " // want: call one SetInt64", "", "reported but not planted"},
 		{"other package", "fix/fix.go", "// want: write inner.Tab", "", "reported but not planted"},
+		{"alias lost", "fix/fix.go", "p := one ", "p := new(big.Int).Set(one) ", "planted but NOT reported"},
 		{"init-only lost", "fix/fix.go", "func init() {\n\tcounter = 5 ", "func Init() {\n\tcounter = 5 ", "reported but not planted"},
 	} {
 		fsys := fixtureWith(t, c.file, func(s string) string { return strings.Replace(s, c.old, c.new, 1) })
